@@ -128,6 +128,7 @@ func (u *Unit) call(st *State, v ssa.Value, c *ssa.CallCommon, instr ssa.Instruc
 	if con := u.eng.contractFor(callee); con != nil && !con.Inline {
 		u.callAssumes(st, key)
 		args := u.argTVs(st, callee.Signature, c.Args, callee)
+		u.callAsserts(st, key, args, instr)
 		res := u.applyContract(st, con, args, instr, key)
 		u.setResults(st, v, sig, res)
 		u.callAssumesRes(st, key, sig, res)
@@ -617,5 +618,23 @@ func (u *Unit) callAssumesWhen(st *State, key string, after bool) {
 		}
 		u.s.assume(implies(st.reach, env.evalBool(ca.Clause.Expr)))
 		u.note("assumed before calls to %s in %s (input well-formedness, not checked): %s", ca.Callee, u.con.Key, ca.Clause.Expr)
+	}
+}
+
+// callAsserts: obligations the unit's contract places on calls to a callee (wherever they occur, also in inlined code).
+func (u *Unit) callAsserts(st *State, key string, args []TV, instr ssa.Instruction) {
+	if u.con == nil || u.s.specMode > 0 {
+		return
+	}
+	for _, ca := range u.con.CallAsserts {
+		if !strings.Contains(key, ca.Callee) {
+			continue
+		}
+		env := u.newEnv(st, u.entry, u.top, u.eng.contractPkg(u.con))
+		for i, a := range args {
+			env.vars[fmt.Sprintf("a%d", i)] = a
+		}
+		o := u.oblige(st, "callassert", ca.Clause.Label, "", env.evalBool(ca.Clause.Expr), instr.Pos())
+		o.Props = ca.Clause.Props
 	}
 }
